@@ -98,6 +98,9 @@ INSTR_CASES = [
     ("reboot", [("instr", "REBOOT", {})], None),
     ("no-marker", [], 0x84),
     # a header / instruction named like the parser's internal firmware-data marker is an ordinary unknown name
+    # header comments are free text after the first colon (time stamps, paths)
+    ("header-colon-in-value", [("header", "Creator", "build tool 1.2 at 12:30:05")], 0x84),
+    ("header-colon-in-other", [("header", "Date", "2020-01-01T10:11:12")], 0x84),
     ("load-header", [("header", "load", "abc")], 0x84),
     ("load-instr", [("instr", "load", {})], 0x84),
 ] + [("selif-" + p, [("instr", "SELECT_IF", {"PROTOCOL": p})], t)
